@@ -95,6 +95,7 @@ type scenario struct {
 
 type execResult struct {
 	Fidelity string `json:"fidelity,omitempty"` // echo runs: "" = same as in-process, else what differs
+	Got      string `json:"got,omitempty"`      // the "message" of the output (which run's result this is)
 	St       string `json:"st"`                 // ok | err | none
 	Output   string `json:"output,omitempty"`
 	TokenOK  bool   `json:"token_ok"`
@@ -265,7 +266,7 @@ func classify(point string, kv []any) (string, map[string]any, string) {
 	case "c.send.pre":
 		k, r := msgKind(kv[1])
 		return "c.send.pre|" + k + "|" + r, nil, ""
-	case "c.register.pre", "c.wait.pre", "c.deliver.pre", "c.sigfwd.pre", "c.v1decode.pre":
+	case "c.register.pre", "c.wait.pre", "c.deliver.pre", "c.sigfwd.pre", "c.v1decode.pre", "c.v1lock.pre":
 		return point + "|" + run, nil, ""
 	case "c.deliverAll.pre":
 		l := []string{}
@@ -414,8 +415,11 @@ func (w *world) spawnCaller(id string) {
 		}
 		e.St, e.Output = "ok", r.OutputID
 		if mm, ok := r.OutputData.(map[any]any); ok {
-			if msg, ok := mm["message"].(string); ok && msg == "hello "+id {
-				e.TokenOK = true
+			if msg, ok := mm["message"].(string); ok {
+				e.Got = msg
+				if msg == "hello "+id {
+					e.TokenOK = true
+				}
 			}
 		}
 	}()
@@ -692,6 +696,14 @@ func runScenario(sc scenario) (res *result) {
 	}
 	if sc.Mode == "v1echo" {
 		runV1Echo(sc, res)
+		return
+	}
+	if sc.Mode == "hello" {
+		runHello(sc, res)
+		return
+	}
+	if sc.Mode == "hello_srv" {
+		runHelloServer(sc, res)
 		return
 	}
 	mode := sched.Free
